@@ -17,6 +17,7 @@ def run(ctx):
     docs = vlib.doc_pool_small()
     docs += [vlib.rand_doc(ctx.rng, 4) for _ in range(3000 if ctx.tier == "quick" else 60000)]
     docs += list(vlib.BASE_DOCS)
+    docs += vlib.scale_docs()                     # wide / deep / long-key / odd-key documents
     docs = [d for d in docs if vlib.nodup_doc(d)]
     ds = list(dict.fromkeys(doc_str(d) for d in docs))
     nt = lambda l, r: r.startswith("OK") and r[3:4] in "ATO"
@@ -44,6 +45,22 @@ def run(ctx):
             ctx.fail("from_str(text) differs from From<&Value>(serde_json(text))", "from_str\t" + hexs(t),
                      {"text": t, "from_str": x, "from_value": y})
     ctx.notes["renderings"] = len(texts)
+    # member names spelled with escapes (every \\uXXXX form, surrogate pairs, two-character escapes): both paths must
+    # read the same name, and the same name as the raw spelling gives
+    n_sp = 0
+    for d in vlib.key_docs():
+        plain = vlib.render_text(ctx.rng, d)
+        sp = [vlib.render_text(ctx.rng, d, keyf=lambda k: vlib.respell(ctx.rng, k)) for _ in range(4)]
+        rs = ctx.impl(["from_str\t" + hexs(t) for t in [plain] + sp] + ["from_value_text\t" + hexs(t) for t in [plain] + sp])
+        n_sp += len(sp)
+        for t, x, y in zip([plain] + sp, rs[:5], rs[5:]):
+            if x != y:
+                ctx.fail("from_str(text) differs from From<&Value>(serde_json(text)) on a text whose member names use escapes",
+                         "from_str\t" + hexs(t), {"text": t[:300], "from_str": x[:200], "from_value": y[:200]})
+            elif x != rs[0]:
+                ctx.fail("a member name spelled with escapes is read as a different name than its raw spelling",
+                         "from_str\t" + hexs(t), {"text": t[:300], "escaped": x[:200], "raw": rs[0][:200]})
+    ctx.notes["escaped_name_renderings"] = n_sp
     # KF5: escaped member names
     kf = ['{"a\\nb":1}', '{"\\u0061":1}', '{"a\\"b":true}', '[{"x\\ty":1},{"x\\ty":1,"z":2}]']
     r1 = ctx.impl(["from_str\t" + hexs(t) for t in kf])
